@@ -430,6 +430,12 @@ func (x *runner) runCase(c Case) (v *verdict, skipped bool, stats map[string]int
 			// a model disagreement is held back: the S oracle below may exhibit a concrete loss
 			tv := tie.afterDrain(op.Dir, where, blocked)
 			atErr, errBuf := len(rd.Got), rd.ErrBuf
+			if _, left := pr.Buffered(op.Dir); atErr < len(want) && left > 0 {
+				// a reader that stops at the first error (io.ReadAll, io.Copy) loses what Read
+				// had already decoded and authenticated but held back
+				return &verdict{"decoded-bytes-withheld-at-read-error", fmt.Sprintf("%s %s: the last network read carried bytes together with %s; Read (buffer %d bytes) returned %v after delivering %d of the %d bytes the peer wrote, while %d decoded bytes were still in receiveDecodedBuffer: a caller that stops at the first error never gets them",
+					where, dn, end, errBuf, rd.Err, atErr, len(want), left)}, false, stats
+			}
 			if atErr == len(want) {
 				stats["close:all-bytes-before-error"]++
 			} else {
@@ -515,6 +521,19 @@ func lastLen(op Op, sizes []int) int {
 	return sizes[len(sizes)-1]
 }
 
+// pickFinReads: mostly the usual classes, plus the small caller buffers of io.ReadAll (512) and
+// byte-wise parsers (1, 7, 512, 1427) that stop at the first error
+func pickFinReads(rng *vlib.Rng, total int) []int {
+	if rng.Intn(3) == 0 {
+		n := vlib.Pick(rng, []int{1, 7, 512, 1427})
+		if total > 20000 && n < 100 {
+			n = 512
+		}
+		return []int{n}
+	}
+	return pickReads(rng, total)
+}
+
 // addFin appends the end of one or both directions: a last burst, then the network error,
 // mostly in the same underlying Read as the last chunk.
 func addFin(rng *vlib.Rng, c *Case, prob int) {
@@ -531,7 +550,7 @@ func addFin(rng *vlib.Rng, c *Case, prob int) {
 			sz = []int{vlib.Pick(rng, []int{1, 17, 1427, 1428, 5000, 30000, 65536})}
 		}
 		c.Ops = append(c.Ops, Op{Kind: "w", Dir: d, Sizes: sz},
-			Op{Kind: "fin", Dir: d, Chunk: pickChunker(rng, sum(sz)), ReadSz: pickReads(rng, sum(sz)),
+			Op{Kind: "fin", Dir: d, Chunk: pickChunker(rng, sum(sz)), ReadSz: pickFinReads(rng, sum(sz)),
 				End: vlib.Pick(rng, []string{"eof", "eof", "other", "timeout"}), Joint: rng.Intn(4) != 0})
 	}
 }
